@@ -94,13 +94,15 @@ def run_pairs(seed=0):
                 out.append(dict(abs_psi=np.abs(np.array(g["psi"])), js=np.array(g["supercurrent"]), jn=np.array(g["normal_current"]), dmu=mu - mu[0]))
         return out
     with tempfile.TemporaryDirectory() as td:
-        for tag, B, screening, cur in (("static field", 0.3, False, None), ("static field, screening", 0.3, True, None),
-                                       ("zero field, screening, bias current", 0.0, True, dict(source=3.0, drain=-3.0))):
+        for tag, B, screening, cur, tpsi in (("static field", 0.3, False, None, 0.0), ("static field, screening", 0.3, True, None, 0.0),
+                                             ("zero field, screening, bias current", 0.0, True, dict(source=3.0, drain=-3.0), 0.0),
+                                             # superconducting contacts: a non-zero (complex) terminal value is a gauge-dependent number; the run must still be invariant
+                                             ("static field, bias current, terminal value 0.6+0.3j", 0.3, False, dict(source=3.0, drain=-3.0), 0.6 + 0.3j)):
             runs = {}
             for sign in (0, +1):
                 def field(x, y, z, sign=sign, B=B):
                     return np.stack([-0.5 * B * y + sign * c[0], 0.5 * B * x + sign * c[1], 0 * x], axis=1)
-                o = tdgl.SolverOptions(solve_time=0.3, include_screening=screening, adaptive=False, dt_init=1e-2, save_every=20, field_units="mT",
+                o = tdgl.SolverOptions(solve_time=0.3, include_screening=screening, adaptive=False, dt_init=1e-2, save_every=20, field_units="mT", terminal_psi=tpsi,
                                        output_file=os.path.join(td, f"g{n}_{sign}.h5"))
                 s = TDGLSolver(dev, o, applied_vector_potential=field, terminal_currents=cur)
                 runs[sign] = (s, o)
